@@ -202,6 +202,10 @@ func ProcessExit() {}
 // itself is not executed). CaptureStdout/TakeStdout collect what fmt.Print* wrote meanwhile.
 func CobraRun(varName string, args []string) { panic("sym.CobraRun: engine only") }
 func CaptureStdout(on bool)                  {}
+
+// ExploreSchedules switches the engine's schedule exploration off (set-up and follow-up phases of a
+// harness run under the default scheduler) and on again. Natively a no-op.
+func ExploreSchedules(on bool) {}
 func TakeStdout() []string                   { return nil }
 
 func IsConcrete(s string) bool { return true }
